@@ -524,6 +524,13 @@ def w_order_recv(t):
                "no schedule lets a second receiver read from the transport or touch the reassembler inside another receiver's message")
 
 
+def w_recv_sched(apis):
+    """two threads receiving through the frame lock only (as close() does next to a thread in recv()): every scheduling decision at
+    a lock operation / transport read a solver choice; each frame is handed out whole and once (C02's R-threads, shared)"""
+    from .c02 import r_threads
+    return r_threads(apis)
+
+
 def obligations(tier):
     thorough = tier == "thorough"
     short = [dict(n=n, nwrites=0) for n in range(0, (9 if thorough else 7))]  # frame <= 14 / 12 bytes: all compositions
@@ -543,6 +550,11 @@ def obligations(tier):
                           "for frames up to %d bytes; payload and key symbolic; plain WebSocket and WebSocket writing through Dispatcher / SSLDispatcher" % (14 if thorough else 12, 200 if thorough else 80),
                    must_cover=["short", "multi-write"], budget_s=2400 if thorough else 900,
                    kernel=["WebSocket.send_frame", "WebSocket._send", "_socket.send", "DispatcherBase.send"]),
+        Obligation("W-recv-sched", w_recv_sched, [dict(apis=a) for a in (("recv_frame", "recv_frame"), ("recv_data_frame", "recv_frame"))],
+                   bounds="2 threads, one receive call each (recv_frame / recv_data_frame) on a stream of two symbolic binary frames; every scheduling "
+                          "decision at a lock acquire/release and before each transport read is a solver choice",
+                   outside=["preemption between two bytecodes not separated by a lock operation or a transport read"],
+                   must_cover=["threads"], step_budget=400000, kernel=["frame_buffer.recv_frame (frame lock)", "WebSocket.recv_frame", "recv_data_frame"]),
         Obligation("W-order-send", w_order_send, osend,
                    bounds="t = 2..4 sender threads, each frame written in 1..3 pieces (symbolic split points), ALL interleavings of the extracted "
                           "lock/write events (no preemption bound)", must_cover=["order-send", "multi-write-trace"], budget_s=1800,
